@@ -9,6 +9,7 @@ import (
 	"os"
 	"sort"
 	"strings"
+	"time"
 
 	"golang.org/x/tools/go/ssa"
 )
@@ -106,6 +107,8 @@ type Path struct {
 	fnsHit    map[*ssa.Function]bool
 	nQueries  int
 	mapOrderRev bool
+	model        map[string]uint64 // an assignment satisfying the whole PC (nil = none known)
+	modelMemo    map[int]uint64
 	domVersion   int
 	simpVersion  int
 	simpMemo     map[int]*Term
@@ -207,6 +210,7 @@ func (p *Path) addPC(c *Term) {
 		}
 		return
 	}
+	p.dropModelUnless(c, true)
 	p.pc = append(p.pc, c)
 	if c.SV != nil {
 		p.narrow(c, true)
@@ -346,6 +350,77 @@ func (p *Path) simp(t *Term) *Term {
 	return r
 }
 
+const modelCacheMaxVars = 96
+
+func (p *Path) setModel(m map[string]ModelValue) {
+	if m == nil || len(p.vars) > modelCacheMaxVars {
+		p.model = nil
+		return
+	}
+	p.model = make(map[string]uint64, len(m))
+	for k, v := range m {
+		if v.S.K == SReal {
+			p.model = nil
+			return
+		}
+		p.model[k] = v.U
+	}
+	p.modelMemo = map[int]uint64{}
+}
+
+// evalModel evaluates a Bool term under the cached model (if any).
+func (p *Path) evalModel(c *Term) (bool, bool) {
+	if p.model == nil || c.NoEval {
+		return false, false
+	}
+	// variables drawn after the model was fetched: any value of their current domain
+	for _, v := range p.vars {
+		if _, ok := p.model[v.Name]; !ok {
+			if v.S.K == SReal || (v.Dom == nil && v.S.K == SBV) {
+				return false, false
+			}
+			p.model[v.Name] = p.anyAllowed(v)
+		}
+	}
+	v, ok := EvalModel(c, p.model, p.modelMemo)
+	if !ok {
+		return false, false
+	}
+	return v != 0, true
+}
+
+// dropModelUnless invalidates the cached model if it does not satisfy c == want.
+func (p *Path) dropModelUnless(c *Term, want bool) {
+	if p.model == nil {
+		return
+	}
+	if v, ok := p.evalModel(c); !ok || v != want {
+		p.model = nil
+	}
+}
+
+func (p *Path) queryModelIfSmall(extra ...*Term) (Res, map[string]ModelValue) {
+	noEval := false
+	for _, e := range extra {
+		if e.NoEval {
+			noEval = true
+		}
+	}
+	if len(p.vars) > modelCacheMaxVars || p.w.noModelCache || noEval {
+		return p.query(extra...), nil
+	}
+	p.w.sv.ModelTimeout = 3 * time.Second
+	mt := p.w.sv.ModelTimeouts
+	r, m := p.queryModel(extra...)
+	p.w.sv.ModelTimeout = 0
+	if p.w.sv.ModelTimeouts != mt {
+		// model construction did not return: stop fetching models on this worker
+		p.w.noModelCache = true
+		m = nil
+	}
+	return r, m
+}
+
 // Decide resolves a symbolic branch condition.
 func (p *Path) Decide(c *Term) bool {
 	if c.IsConst() {
@@ -376,6 +451,7 @@ func (p *Path) Decide(c *Term) bool {
 	if p.pos < len(p.prefix) {
 		d := p.prefix[p.pos] != 0
 		p.pos++
+		p.dropModelUnless(c, d)
 		if d {
 			p.addPC(c)
 		} else {
@@ -386,8 +462,39 @@ func (p *Path) Decide(c *Term) bool {
 	var feasT, feasF bool
 	if fastBoth {
 		feasT, feasF = true, true
+		p.dropModelUnless(c, true)
+	} else if mv, ok := p.evalModel(c); ok {
+		// the cached model of PC witnesses one side; only the other side needs the solver
+		if mv {
+			feasT = true
+			switch p.query(p.tt().Not(c)) {
+			case Unsat:
+				feasF = false
+			case Unknown:
+				p.unknown = true
+				p.w.noteUnknown("feasibility of a branch condition")
+				feasF = true
+			default:
+				feasF = true
+			}
+		} else {
+			feasF = true
+			r, m := p.queryModelIfSmall(c)
+			switch r {
+			case Unsat:
+				feasT = false
+			case Unknown:
+				p.unknown = true
+				p.w.noteUnknown("feasibility of a branch condition")
+				feasT = true
+				p.model = nil
+			default:
+				feasT = true
+				p.setModel(m) // the true side is taken
+			}
+		}
 	} else {
-		r := p.query(c)
+		r, m := p.queryModelIfSmall(c)
 		switch r {
 		case Unsat:
 			feasT, feasF = false, true
@@ -397,6 +504,9 @@ func (p *Path) Decide(c *Term) bool {
 			feasT = true
 		default:
 			feasT = true
+			if m != nil {
+				p.setModel(m)
+			}
 		}
 		if feasT {
 			r2 := p.query(p.tt().Not(c))
@@ -422,6 +532,7 @@ func (p *Path) Decide(c *Term) bool {
 		alt[len(p.prefix)] = 0
 		p.alts = append(p.alts, alt)
 	}
+	p.dropModelUnless(c, d)
 	if d {
 		p.prefix = append(p.prefix, 1)
 		p.addPC(c)
@@ -575,6 +686,7 @@ func (p *Path) Decide1(c *Term) bool {
 			return true
 		}
 		if !p.ent[c.SV] {
+			p.dropModelUnless(c, true)
 			p.addPC(c)
 			return true
 		}
@@ -583,11 +695,23 @@ func (p *Path) Decide1(c *Term) bool {
 		d := p.prefix[p.pos] != 0
 		p.pos++
 		if d {
+			p.dropModelUnless(c, true)
 			p.addPC(c)
 		}
 		return d
 	}
-	r := p.query(c)
+	var r Res
+	if mv, ok := p.evalModel(c); ok && mv {
+		r = Sat // the cached model satisfies the assumption
+	} else {
+		var m map[string]ModelValue
+		r, m = p.queryModelIfSmall(c)
+		if r == Sat && m != nil {
+			p.setModel(m)
+		} else {
+			p.model = nil
+		}
+	}
 	if r == Unknown {
 		p.unknown = true
 		p.w.noteUnknown("feasibility of an assumption")
@@ -746,12 +870,15 @@ func (p *Path) Assert(c Value, clause string) {
 	}
 	neg := tt.Not(ct)
 	hit, sym := p.activeRegions()
+	failed := false
 	if hit != "" {
 		// every failure on this path lies in a known-finding region
 		r, m := p.queryModel(neg)
 		if r == Sat {
+			failed = true
 			p.recordViolation("assert", clause, "", hit, m)
 		} else if r == Unknown {
+			failed = true
 			p.unknown = true
 			p.w.noteUnknown("assertion " + clause)
 		}
@@ -763,12 +890,15 @@ func (p *Path) Assert(c Value, clause string) {
 		r, m := p.queryModel(extra...)
 		switch r {
 		case Sat:
+			failed = true
 			p.recordViolation("assert", clause, "", "", m)
 		case Unknown:
+			failed = true
 			p.unknown = true
 			p.w.noteUnknown("assertion " + clause)
 		}
 		for _, rg := range sym {
+			failed = true // conservatively re-establish feasibility below
 			r2, m2 := p.queryModel(neg, rg.cond.(*Term))
 			if r2 == Sat {
 				p.recordViolation("assert", clause, "", rg.id, m2)
@@ -777,6 +907,18 @@ func (p *Path) Assert(c Value, clause string) {
 				p.w.noteUnknown("assertion " + clause)
 			}
 		}
+	}
+	if !failed {
+		// the assertion is valid on this path: PC ∧ ct is satisfiable because PC is,
+		// and every model of PC (the cached one included) satisfies ct
+		if !ct.IsConst() {
+			keep := p.model
+			p.addPC(ct)
+			if keep != nil && ct.NoEval {
+				p.model = keep
+			}
+		}
+		return
 	}
 	// continue under the assertion if that is possible
 	if ct.IsConst() {
